@@ -185,7 +185,15 @@ func gangHistory(c *Ctx, d *coreDrv) {
 		p := c.pick(100)
 		switch {
 		case p < 38:
+			before := len(s.pendConf)
 			emit(map[string]interface{}{"op": "schedule"})
+			// a swap was just decided: now and then the placeholder's node disappears before the shim confirms
+			if len(s.pendConf) > before && s.pendConf[len(s.pendConf)-1]["type"] == "PLACEHOLDER_REPLACED" && c.chance(0.35) {
+				if n := s.bound[s.pendConf[len(s.pendConf)-1]["key"].(string)]; n != "" && s.nodes[n] && len(s.nodes) > 1 {
+					emit(map[string]interface{}{"op": "node", "id": n, "action": "decommission"})
+					delete(s.nodes, n)
+				}
+			}
 		case p < 58:
 			// a real ask for one of the task groups: size relative to a placeholder of that group
 			if len(g.phKeys) == 0 {
